@@ -136,7 +136,7 @@ def idempotence(con, data, params, canonical, tag, where, spec=None):
 
 @st.composite
 def spec_bytes(draw):
-    spec, params, value = draw(V.cases(frag=FRAG, depth=3))
+    spec, params, value = draw(V.cases(frag=FRAG, depth=3, rootrefs=True))
     con = G.realise(spec)
     b = call(con.build, value, **params)
     canonical = b.value if b.ok else None
